@@ -127,8 +127,19 @@ def analyse(W, name, f, ctx, desc, path):
             items.append(("viol", "R2", f"{name}:{slot}:changed-without-word",
                           f"{entry}: state.{slot} changes to {fin!r} although no {q} word is delivered",
                           [f"statements: {[s.describe()[:60] for s in sts]}", f"path decisions: {decisions_text(path)}"]))
-    # ---------------------------------------------------------------- R3 / R4
+    # ---------------------------------------------------------------- R3 / R4 / R7
     motion = [s for s in sts if any(c in MOTION_OR_OFFSET for c in s.codes())]
+    if not motion and name != "write":
+        # R7: the remembered move parameters are "the last value of every move parameter": a command that delivers no
+        # motion / offset statement carries no such word, so it must leave the record alone
+        muts = [e for e in path.trace if e.kind == "MUT" and e.data.get("label") in ("g._current_params", "state._current_params")]
+        if muts:
+            items.append(("viol", "R7", f"{name}:params-changed-without-motion",
+                          f"{entry}: the remembered move parameters are modified ({muts[0].data.get('method')}{tuple(str(a)[:30] for a in muts[0].data.get('args', ()))}) "
+                          f"although no motion or offset statement is delivered ({all_codes or 'nothing'}): the state no longer reports the last value the program carries",
+                          [f"at {muts[0].where()}", f"path decisions: {decisions_text(path)}"]))
+        else:
+            items.append(("ok", "R7", f"{entry}: remembered parameters untouched"))
     if motion and name != "write":
         g_fin = path.heap[W.ref("g").addr]
         gp = g_fin.fields.get("_current_params")
@@ -259,6 +270,7 @@ def run(check, repo, tier):
     check.rule("R4", "state and builder share the remembered-parameters object and report the same position after motion commands")
     check.rule("R5", "instruction table: RS274 agreement for every entry, totality for every member a command looks up")
     check.rule("R6", "a rejected call changes a mirrored slot only together with a delivered code / word that accounts for the new value")
+    check.rule("R7", "commands that deliver no motion / offset statement leave the remembered move parameters alone")
     cr = CommandRun(repo, tier=tier, exclude=("write",), cm_body=("pass",), with_invalid=False)
     results = cr.run(analyse)
     check.floor(not (cr.stats["commands"] < 40), f"C07: only {cr.stats['commands']} public commands analysed (floor 40)")
